@@ -76,6 +76,17 @@ Theorem send_uses_what_was_set :
 Proof. exact send_uses_what_was_set_l. Qed.
 Print Assumptions send_uses_what_was_set.
 
+(* the HTTP headers of a SOAP request (_SoapClient.__headers): suds' own
+   Content-Type and SOAPAction updated with the `headers` option -- for every
+   header name the caller's value wins (whatever the spelling of the name),
+   suds' value stays only for a name the caller's map does not contain *)
+Theorem caller_headers_win :
+  forall opt k,
+    hlookup k (soap_headers opt) =
+    match caller_value k opt with Some v => Some v | None => hlookup k hdr_defaults end.
+Proof. exact caller_headers_win_l. Qed.
+Print Assumptions caller_headers_win.
+
 (* a value of the wrong type or an unknown option name, through any object,
    in any state: AttributeError and the state is unchanged *)
 Theorem invalid_has_no_effect :
@@ -267,10 +278,23 @@ Example send_nonvacuous :
          [St (NC 0) name_proxy (6, 1); Us 0; St (NT 0 0) name_proxy (6, 2); Us 0;
           St (NC 0) name_proxy (0, 0); St (NC 0) name_username (4, 0); Us 0;
           St (NC 0) name_password (4, 1); Us 0; Uo (NT 0 0) 16; Uo (NT 0 0) 15])
-  = [OOk; OW [6010; 2100; 6011; 10; 10]; OOk; OW [6010; 2100; 6012; 10; 10];
-     OOk; OOk; OW [6010; 2100; 6010; 10; 10];
-     OOk; OW [6010; 2100; 6010; 4010; 4011]; OW [2100; 6010; 4010; 4011]; OW [2100; 6010; 10; 10]].
+  = [OOk; OW [2100; 6011; 10; 10; 1; 0; 2; 0]; OOk; OW [2100; 6012; 10; 10; 1; 0; 2; 0];
+     OOk; OOk; OW [2100; 6010; 10; 10; 1; 0; 2; 0];
+     OOk; OW [2100; 6010; 4010; 4011; 1; 0; 2; 0]; OW [2100; 6010; 4010; 4011]; OW [2100; 6010; 10; 10]].
 Proof. vm_compute. reflexivity. Qed.
+
+(* header maps that collide with suds' own headers, on an original and its
+   clone: Content-Type / SOAPAction of the option replace suds' values (0) *)
+Example headers_nonvacuous :
+  snd (run gen_tables (init gen_tables)
+         [Us 0; St (NC 0) name_headers (6, 5); Us 0; Cl 0; St (NT 1 0) name_headers (6, 7); Us 1; Us 0;
+          St (NC 0) name_headers (6, 8); Us 0; St (NC 0) name_headers (0, 0); Us 0])
+  = [OW [2100; 6010; 10; 10; 1; 0; 2; 0]; OOk; OW [2100; 6010; 10; 10; 1; 8; 2; 0]; OOk; OOk;
+     OW [2100; 6010; 10; 10; 1; 0; 2; 3; 5; 4]; OW [2100; 6010; 10; 10; 1; 8; 2; 0]; OOk;
+     OW [2100; 6010; 10; 10; 1; 12; 2; 1]; OOk; OW [2100; 6010; 10; 10; 1; 0; 2; 0]]
+  /\ hlookup hdr_content_type (soap_headers [(1, 8)]) = Some 8
+  /\ hlookup hdr_soapaction (soap_headers [(1, 8)]) = Some 0.
+Proof. vm_compute. repeat split; reflexivity. Qed.
 
 (* independence is about histories that really assign on both sides, with a
    transport derived directly from suds.transport.Transport (tag 17) *)
